@@ -16,7 +16,10 @@ delimiters (including the empty one):
   (`truncate_within_width_measured`);
 * `line_truncate_terminates` — the `while` loop of `Line::truncate` finishes within
   `items.len() + 2` evaluations of its condition (the fuel the driver uses);
-* `line_truncate_within_width` — for any fuel, if it finishes, it did not panic and the line fits.
+* `line_truncate_within_width` — for any fuel, if it finishes, it did not panic and the line fits;
+* histories on the same value: `truncate_idempotent`, `truncate_twice`, `line_truncate_twice`,
+  `line_truncate_idempotent`, `line_run_total` (any sequence of push/space/pad/truncate on any line value
+  runs to the end), `line_pad_width`.
 -/
 set_option linter.unusedSimpArgs false
 set_option linter.unusedVariables false
@@ -139,6 +142,81 @@ theorem line_truncate_fuel_mono (fuel : Nat) (items : Line) (w : Nat) (d : Str) 
           rw [heq']
           exact ih _ h
 
+/-! ## histories: the same value truncated again -/
+
+/-- **C26, repeated `str::truncate`.** What a truncation returned is left alone by any later
+truncation to the same or a larger width (whatever the delimiter), and a later truncation to any width
+again yields a string that fits. -/
+theorem truncate_idempotent {s : Str} {w : Nat} {d out : Str} (h : truncate s w d = .ok out)
+    (w' : Nat) (d' : Str) (hw : w ≤ w') : truncate out w' d' = .ok out := by
+  have := truncate_within_width h
+  unfold truncate
+  have hn : ¬ (w' < gwidth out) := by omega
+  simp [hn]
+
+theorem truncate_twice (s : Str) (w₁ w₂ : Nat) (d₁ d₂ : Str) :
+    ∃ out₁ out₂, truncate s w₁ d₁ = .ok out₁ ∧ truncate out₁ w₂ d₂ = .ok out₂ ∧ gwidth out₂ ≤ w₂ := by
+  obtain ⟨out₁, h₁⟩ := truncate_no_panic s w₁ d₁
+  obtain ⟨out₂, h₂⟩ := truncate_no_panic out₁ w₂ d₂
+  exact ⟨out₁, out₂, h₁, h₂, truncate_within_width h₂⟩
+
+/-- **C26, repeated `Line::truncate`.** From *any* line value two successive truncations (any
+widths, any delimiters) both terminate without panic, and the result fits the second width. -/
+theorem line_truncate_twice (items : Line) (w₁ w₂ : Nat) (d₁ d₂ : Str) :
+    ∃ out₁ out₂, lineTruncate (items.length + 2) items w₁ d₁ = some (.ok out₁) ∧
+      lineTruncate (out₁.length + 2) out₁ w₂ d₂ = some (.ok out₂) ∧ lwidth out₁ ≤ w₁ ∧
+      lwidth out₂ ≤ w₂ := by
+  obtain ⟨out₁, h₁, hw₁⟩ := line_truncate_terminates items w₁ d₁
+  obtain ⟨out₂, h₂, hw₂⟩ := line_truncate_terminates out₁ w₂ d₂
+  exact ⟨out₁, out₂, h₁, h₂, hw₁, hw₂⟩
+
+/-- A line that fits is left alone: truncating a truncated line to the same or a larger width changes
+nothing. -/
+theorem line_truncate_idempotent {items out : Line} {w : Nat} {d : Str}
+    (h : lineTruncate (items.length + 2) items w d = some (.ok out)) (w' : Nat) (d' : Str)
+    (hw : w ≤ w') : lineTruncate (out.length + 2) out w' d' = some (.ok out) := by
+  obtain ⟨out', ho, hfit⟩ := line_truncate_within_width _ _ _ _ _ h
+  cases ho
+  exact lineTruncate_done (by omega)
+
+/-- Every operation on every line value yields a line; after a `truncate` it fits. -/
+theorem line_apply_total (l : Line) (op : LineOp) :
+    ∃ out, lineApply l op = some (.ok out) ∧
+      (∀ w d, op = .truncate w d → lwidth out ≤ w) := by
+  cases op with
+  | push s => exact ⟨_, rfl, by intro w d h; cases h⟩
+  | space => exact ⟨_, rfl, by intro w d h; cases h⟩
+  | pad w => exact ⟨_, rfl, by intro w' d h; cases h⟩
+  | truncate w d =>
+    obtain ⟨out, h, hw⟩ := line_truncate_terminates l w d
+    exact ⟨out, h, by intro w' d' e; cases e; exact hw⟩
+
+/-- **C26, histories.** Any sequence of `push`/`space`/`pad`/`truncate` on any line value runs to the
+end: every truncation in it terminates and none panics. -/
+theorem line_run_total (l : Line) (ops : List LineOp) : ∃ out, lineRun l ops = some (.ok out) := by
+  induction ops generalizing l with
+  | nil => exact ⟨l, rfl⟩
+  | cons op ops ih =>
+    obtain ⟨l', h, _⟩ := line_apply_total l op
+    obtain ⟨out, ho⟩ := ih l'
+    exact ⟨out, by simp [lineRun, h, ho]⟩
+
+/-- `pad` never narrows a line, and pads exactly to `width` when the line was narrower. -/
+theorem line_pad_width (l : Line) (w : Nat) : lwidth (linePad l w) = max (lwidth l) w := by
+  have hrep : ∀ n, gwidth (List.replicate n spaceG) = n := by
+    intro n
+    induction n with
+    | zero => rfl
+    | succ n ih =>
+      simp only [List.replicate_succ, gwidth]
+      rw [ih]
+      simp [spaceG]
+      omega
+  unfold linePad
+  split
+  · rw [lwidth_concat, hrep]; omega
+  · omega
+
 /-- The real width of a line is the sum of the real widths of its labels. -/
 def lineMeasure (W : List Nat → Nat) : Line → Nat
   | [] => 0
@@ -184,6 +262,12 @@ example : truncate [kai, kai] 2 [ellipsis] = .ok [ellipsis] := by decide
 example : truncate [kai] 1 [kai] = .ok [] := by decide
 example : lineTruncate 4 [[a, b], [kai, kai], [b]] 5 [ellipsis] = some (.ok [[a, b], [kai, ellipsis]]) := by
   decide
+/-- The seeded history: `🍍🍍` to 1 (empty result, one column of slack), then to 0; and a padded line
+cut inside its padding, then cut again. -/
+example : lineRun [[⟨[⟨[0xf0, 0x9f, 0x8d, 0x8d], false⟩], 2⟩, ⟨[⟨[0xf0, 0x9f, 0x8d, 0x8d], false⟩], 2⟩]]
+    [.truncate 1 [], .truncate 0 []] = some (.ok [[]]) := by decide
+example : lineRun [[a, b]] [.pad 10, .truncate 6 [b, b, b], .truncate 2 [b, b, b]] =
+    some (.ok [[a, b], []]) := by decide
 /-- A cut inside a cluster, or off a `char` boundary, is what the model reports for other offsets. -/
 example : splitAtByte [eacute, b] 1 = .cutInsideGrapheme := by decide
 example : splitAtByte [a, isp] 2 = .panic "byte index is not a char boundary" := by decide
